@@ -403,7 +403,7 @@ func genC03(ctx *fw.Ctx) []fw.Case {
 	}
 	cases = append(cases, fw.Case{ID: "constants", Run: c03Constants})
 	cases = append(cases, fw.Case{ID: "module-level", Run: c03ModuleLevel})
-	n := ctx.Pick(600, 12000)
+	n := ctx.Pick(600, 40000)
 	rng := ctx.Rand("c03exec")
 	for i := 0; i < n; i++ {
 		seed := rng.Int63()
